@@ -20,6 +20,29 @@ Definition hmacB_sha512 := hmacB _ sha512_init sha512_update sha512_finish 128.
 Definition hmacB_sha512_224 := hmacB _ sha512_224_init sha512_update sha512_224_finish 128.
 Definition hmacB_sha512_256 := hmacB _ sha512_256_init sha512_update sha512_256_finish 128.
 
+(* src/sm3_digest.c: one context that is plain SM3 (key = NULL) or SM3-HMAC with a 12..64-byte key.
+   Since commit (see KNOWN_FINDINGS) an empty update is a no-op; before it returned -1. *)
+Definition sm3_digest_api (key : option (list N)) (chunks : list (list N)) : option (list N) :=
+  match key with
+  | None => Some (sm3_finish (fold_left sm3_update chunks sm3_init))
+  | Some k => if (length k <? 12) || (64 <? length k) then None else Some (sm3_hmac k chunks)
+  end.
+Definition sm3_digest_api_spec (key : option (list N)) (m : list N) : option (list N) :=
+  match key with
+  | None => Some (sm3 m)
+  | Some k => if (length k <? 12) || (64 <? length k) then None else Some (sm3_hmac_spec k m)
+  end.
+
+(* src/hmac.c hmac_finish_and_verify: maclen != hmaclen || memcmp(hmac, mac, maclen) *)
+Definition bytes_eqb (a b : list N) : bool := if list_eq_dec N.eq_dec a b then true else false.
+Definition mac_verify (h mac : list N) : bool := (length mac =? length h) && bytes_eqb (firstn (length mac) h) mac.
+Definition hmacB_verify_sm3 key chunks mac := mac_verify (hmacB_sm3 key chunks) mac.
+Definition hmacB_verify_sha1 key chunks mac := mac_verify (hmacB_sha1 key chunks) mac.
+Definition hmacB_verify_sha224 key chunks mac := mac_verify (hmacB_sha224 key chunks) mac.
+Definition hmacB_verify_sha256 key chunks mac := mac_verify (hmacB_sha256 key chunks) mac.
+Definition hmacB_verify_sha384 key chunks mac := mac_verify (hmacB_sha384 key chunks) mac.
+Definition hmacB_verify_sha512 key chunks mac := mac_verify (hmacB_sha512 key chunks) mac.
+
 (* KDFs *)
 Definition sm3_kdf_stream := kdf_stream sm3_ctx sm3_init sm3_update sm3_finish 32.
 Definition sm2_kdf := kdf_oneshot sm3_ctx sm3_init sm3_update sm3_finish 32.
